@@ -71,14 +71,46 @@ def _check(v):
 
 
 class Ctx:
-    def __init__(self, fuel=20000, leaves=None):
+    def __init__(self, fuel=20000, leaves=None, inval=None):
         self.fuel = fuel
         self.leaves = leaves      # callable (randspec, seed) -> list, for Pseed
+        self.inval = inval        # the input value handed to every pull
 
     def tick(self, n=1):
         self.fuel -= n
         if self.fuel < 0:
             raise OutOfFuel
+
+
+def iv(inval):
+    """Number carried by an input value (shared with the builder): None -> 0,
+    a number -> itself, a dict -> its 'k' entry."""
+    if inval is None:
+        return 0
+    if isinstance(inval, dict):
+        return inval.get('k', 0)
+    return inval
+
+
+class Inval:
+    """The input value of pull number j of one stream: constant, or changing
+    from pull to pull (base + j*delta; a dict carries it under 'k')."""
+
+    def __init__(self, base=None, delta=0):
+        self.base, self.delta = base, delta
+
+    def at(self, j):
+        if self.base is None:
+            return None
+        if isinstance(self.base, dict):
+            return {'k': self.base['k'] + j * self.delta}
+        return self.base + j * self.delta
+
+    def varies(self):
+        return self.base is not None and self.delta != 0
+
+    def __repr__(self):
+        return f'Inval({self.base!r}, {self.delta!r})'
 
 
 def isnode(x):
@@ -412,6 +444,41 @@ def _pfunc(node, c):
         yield value
 
 
+# -- the same with functions of the input value: every pull is made with the
+# same input value (c.inval), the functions see exactly that value
+
+def _pfuncn_i(node, c):
+    _, a, b, repeats = node
+    for _ in counter(repeats):
+        c.tick()
+        yield iv(c.inval) * a + b
+
+
+def _prout_i(node, c):
+    _, a, values = node
+    for v in values:
+        c.tick()
+        yield iv(c.inval) * a + v
+
+
+def _pcollect_i(node, c):
+    # Pcollect(func(value, inval), pattern)
+    _, a, x = node
+    for v in stream(x, c):
+        yield v + iv(c.inval) * a
+
+
+def _plazy_i(node, c):
+    # Plazy(func(inval) -> pattern)
+    # the function is evaluated once, with the input value of the pull that
+    # starts the embedding; the pattern it returns is then fixed
+    _, a, values = node
+    k = iv(c.inval) * a
+    for v in values:
+        c.tick()
+        yield v + k
+
+
 def _plazy(node, c):
     # Plazy(func): the pattern the function returns, embedded in place
     _, sub = node
@@ -616,16 +683,23 @@ SEM = {
     'Pif': _pif, 'Pwrap': _pwrap, 'Pseed': _pseed,
     'Punop': _punop, 'Pbinop': _pbinop, 'Pnarop': _pnarop,
     'Pfuncn': _pfuncn, 'Pfunc': _pfunc, 'Plazy': _plazy, 'Prout': _prout,
+    'PfuncnI': _pfuncn_i, 'ProutI': _prout_i, 'PcollectI': _pcollect_i,
+    'PlazyI': _plazy_i,
 }
 
 
-def take(node, n, fuel=20000, leaves=None):
+def take(node, n, fuel=20000, leaves=None, inval=None):
     """At most n values of the denotation and whether the sequence ended
-    within those n pulls.  Raises OutOfFuel for unproductive expressions."""
-    c = Ctx(fuel, leaves)
+    within those n pulls.  Raises OutOfFuel for unproductive expressions.
+    inval: None, a constant, or an Inval schedule - the value produced by pull
+    j is computed with the input value of pull j (everything a pattern pulls
+    from its sources during that pull sees the same input value)."""
+    sched = inval if isinstance(inval, Inval) else Inval(inval, 0)
+    c = Ctx(fuel, leaves, sched.at(0))
     g = den(node, c)
     out = []
-    for _ in range(n):
+    for j in range(n):
+        c.inval = sched.at(j)
         try:
             out.append(next(g))
         except StopIteration:
@@ -658,7 +732,7 @@ def subnodes(node):
     out = []
     if node[0] == 'Pseed':          # the random spec is an opaque leaf
         return [node[1]] if isnode(node[1]) else []
-    if node[0] == 'Prout':
+    if node[0] in ('Prout', 'ProutI', 'PlazyI'):
         return []
     for x in node[1:]:
         if isnode(x):
